@@ -2,7 +2,7 @@ CONSTANTS
   Owners = {1, 2}
   Setters = {1, 2}
   Obs = {9}
-  Val = {"a", "b"}
+  Val = {"a"}
   FirstVal = "a"
   MaxClock = 2
   MaxUpd = 2
